@@ -124,10 +124,6 @@ func c18Read(size int64, logBlock uint32, is64 bool, descSize uint16) {
 	vp.Unwind(70)
 	vp.AllocCap(vp.Bound("alloccap", 130, 200))
 	vp.AllocLimit(limit)
-	if binary.LittleEndian.Uint32(sb[0x20:]) == 0 {
-		// KF-C18-8: blocks per group = 0: division by zero in blockGroupCount
-		vp.KnownPanic("KF-C18-8", "superblock).blockGroupCount) | integer divide by zero")
-	}
 	if is64 {
 		if descSize < 32 {
 			// KF-C18-9: 64-bit feature with a descriptor size below 32: the descriptor parser reads 32 bytes anyway
@@ -474,8 +470,9 @@ func VP_C18_ext4_read_inode_raw() {
 	sb := &superblock{blockSize: 1024, inodeSize: 256, inodesPerGroup: ipg}
 	fs := &FileSystem{superblock: sb, backend: dev, size: 64 << 10,
 		groupDescriptors: &groupDescriptors{descriptors: []groupDescriptor{{inodeTableLocation: 5}}}}
-	// KF-C18-17: inodes per group = 0 (divide by zero); inode number beyond the last block group (index out of range)
-	vp.KnownPanic("KF-C18-17", "ext4.FileSystem).readInodeRaw) | integer divide by zero")
+	// KF-C18-17: inode number beyond the last block group (index out of range); inodes per group = 0 is
+	// refused by Read since f77281d
+	vp.Assume(ipg != 0)
 	vp.KnownPanic("KF-C18-17", "ext4.FileSystem).readInodeRaw) | index out of range")
 	vp.NoPanic()
 	b, err := fs.readInodeRaw(num)
@@ -533,10 +530,6 @@ func c18FileRead(bs uint32, buflen int) {
 	b := make([]byte, buflen)
 	vp.Unwind(6)
 	vp.AllocCap(buflen)
-	if bs == 0 {
-		// KF-C18-19: block size 0 (s_log_block_size = 22 makes 2^32 wrap to 0)
-		vp.KnownPanic("KF-C18-19", "ext4.File).Read) | integer divide by zero")
-	}
 	vp.NoPanic()
 	n, err := fl.Read(b)
 	vp.AllowPanic()
@@ -555,4 +548,3 @@ type c18NullDev struct{ vpdev.MemDev }
 func (d *c18NullDev) ReadAt(p []byte, off int64) (int, error) { return len(p), nil }
 
 func VP_C18_ext4_file_read_1024() { c18FileRead(1024, 100) }
-func VP_C18_ext4_file_read_0()    { c18FileRead(0, 100) }
